@@ -96,6 +96,31 @@ func layoutVariants(text string, thorough bool) map[string]string {
 			break
 		}
 	}
+	// one line padded past 64 KiB (the token limit of a default bufio.Scanner) and past 1 MiB, and a comment line of
+	// that length above it: a line has no maximum length
+	done := 0
+	for i := range lines {
+		t := strings.TrimSpace(lines[i])
+		if t == "" || (i > 0 && isContinuation(lines[i-1])) {
+			continue
+		}
+		for _, n := range []int{70000, 1100000} {
+			huge := append([]string(nil), lines...)
+			huge[i] = strings.Repeat(" ", n) + lines[i] + strings.Repeat("\t", 17)
+			out[fmt.Sprintf("hugepad%d@%d", n, i)] = join(huge)
+			if t[0] != '#' && t[0] != ';' {
+				v := append(append(append([]string(nil), lines[:i]...), "# "+strings.Repeat("x", n)), lines[i:]...)
+				out[fmt.Sprintf("hugecomment%d@%d", n, i)] = join(v)
+			}
+			if !thorough {
+				break
+			}
+		}
+		done++
+		if done >= 2 && !thorough || done >= 6 {
+			break
+		}
+	}
 	// a comment line longer than the reader's buffer directly above (or one blank line above) a line that is
 	// itself longer than the buffer
 	for i := range lines {
